@@ -27,6 +27,7 @@ func runC11(c *Ctx) {
 	c.Rule("R11.3", 3, "associativity constants match the directive keyword")
 	c.Rule("R11.4", 6, "generic tree builder: leaf per token, children in body order")
 	c.Rule("R11.5", 70, "both evaluators have exactly one case per production")
+	c.Rule("R11.6", 1, "a value taken from the parse stack reaches the tree as it is or through an injective re-encoding")
 
 	c.mute = map[string]bool{"R4.2": true}
 	g := extractEBNF(c, "R11.5")
@@ -57,6 +58,80 @@ func runC11(c *Ctx) {
 	checkOperandOrder(c, ev)
 	checkAssocConstants(c, ev, "R11.3")
 	checkTreeBuilder(c, g)
+	checkLeafFidelity(c, ev)
+}
+
+// checkLeafFidelity: R11.6. The tree has to reflect the source: what an action takes from rhs[k].Val (a lexeme, or a
+// sub-tree) may be stored, returned, looked up, quoted (%q / strconv.Quote: injective) or mentioned in an error, but not passed
+// through any other function: a function that is not injective (resolving escapes, trimming, case folding) makes two
+// different sources yield the same tree.
+func checkLeafFidelity(c *Ctx, ev *evaluator) {
+	info := ev.pkg.TypesInfo
+	var idxs []int
+	for i := range ev.cases {
+		idxs = append(idxs, i)
+	}
+	sort.Ints(idxs)
+	nCalls := 0
+	var bad []string
+	var badPos token.Pos
+	injective := func(call *ast.CallExpr) bool {
+		fo, _ := objOf(info, call.Fun).(*types.Func)
+		if fo == nil {
+			// conversions T(x), builtins (append, len, make)
+			return true
+		}
+		if fo.Pkg() == nil {
+			return true
+		}
+		switch fo.Pkg().Path() + "." + fo.Name() {
+		case "strconv.Quote":
+			return true
+		case "fmt.Errorf", "errors.New":
+			return true // a diagnostic, not part of the tree
+		case "fmt.Sprintf":
+			if len(call.Args) >= 1 {
+				if f, ok := constStr(info, call.Args[0]); ok {
+					// only %q / %s / %v / %d with literal text around them: injective in each argument for a fixed format with one verb
+					return strings.Count(f, "%") == 1 && (strings.Contains(f, "%q") || strings.Contains(f, "%s") || strings.Contains(f, "%v") || strings.Contains(f, "%d"))
+				}
+			}
+			return false
+		}
+		return false
+	}
+	for _, i := range idxs {
+		cs := ev.cases[i]
+		origins := ev.varOrigins(cs)
+		for _, st := range cs.clause.Body {
+			ast.Inspect(st, func(n ast.Node) bool {
+				call, ok := n.(*ast.CallExpr)
+				if !ok {
+					return true
+				}
+				uses := false
+				for _, a := range call.Args {
+					if len(ev.rhsRefs(a, origins)) > 0 {
+						uses = true
+					}
+				}
+				if !uses {
+					return true
+				}
+				nCalls++
+				if !injective(call) {
+					bad = append(bad, fmt.Sprintf("production %d (%s): %s", i, cs.prod, types.ExprString(call)))
+					if !badPos.IsValid() {
+						badPos = call.Pos()
+					}
+				}
+				return true
+			})
+		}
+	}
+	c.Check("R11.6", fmt.Sprintf("%s: values taken from the stack reach the tree unchanged or quoted", trimMod(ev.pkg.PkgPath)), badPos, len(bad) == 0 && nCalls >= 1,
+		"a stack value is passed through a function that is not known to be injective, so the tree no longer determines the source text: "+strings.Join(bad, "; "),
+		"QT = \"\\\"\"; start = QT;")
 }
 
 // varOrigins maps local variables of a case to the rhs index they were taken from.
